@@ -5,6 +5,7 @@ Driver B: every assert_* class x operand pairs from a value alphabet x wrapping
 a try on the unwrapped operands actually passed.
 """
 import operator
+import dataclasses
 import re
 import string
 from mc.explore import Phase
@@ -52,12 +53,21 @@ def p_blank_mid():
     print("b")
 """
 
+@dataclasses.dataclass
+class Card:
+    """a dataclass instance as a CS1 value (equal by fields)"""
+    suit: str
+    rank: int
+
+
 VALUES = [0, 1, -1, 2, True, False, 1.0, 1.0005, 1.002, 0.9995, 'a', 'A', 'abc', 'a!', 'Hello, World', 'hello world',
           '', [], [1], [1, 2], [2, 1], (1, 2), (), {'a': 1}, {}, {1, 2}, None, [1.0005], [[1], [2]], (1, 'a'),
           {1.0005}, {'Hello, World'}, 3, {1}, {'hello world'}, {'k': {1.0005}}, {'k': {1}},
-          b'ab', b'AB', frozenset({1, 2}), frozenset({1.0005}), frozenset({1}), 1 + 2j]
+          b'ab', b'AB', frozenset({1, 2}), frozenset({1.0005}), frozenset({1}), 1 + 2j,
+          Card('hearts', 5), Card('spades', 5), Card('hearts', 5)]
 CORE = [0, 1, 2, True, 1.0, 1.0005, 1.002, 'a', 'A', 'a!', 'abc', [1], [1, 2], (1, 2), {'a': 1}, {1, 2}, None, [1.0005], {1.0005},
-        {1}, {'Hello, World'}, {'hello world'}, b'ab', b'AB', frozenset({1.0005}), frozenset({1})]
+        {1}, {'Hello, World'}, {'hello world'}, b'ab', b'AB', frozenset({1.0005}), frozenset({1}),
+        Card('hearts', 5), Card('spades', 5)]
 SPECIAL = ['<error>', '<opaque>']
 DELTA = .001
 
@@ -190,6 +200,9 @@ def ref_equal(a, b, exact=False, delta=DELTA):
             if all(r is not False for r in rs):
                 best = None
         return best
+    if isinstance(a, Card) or isinstance(b, Card):
+        # a dataclass instance equals exactly what its generated __eq__ says (same class, same fields)
+        return bool(a == b)
     kinds = (str, bytes, list, tuple, dict, set, frozenset, int, float, complex)
     ka = [k for k in kinds if isinstance(a, k)]
     kb = [k for k in kinds if isinstance(b, k)]
@@ -402,7 +415,8 @@ def body_instance(ctx):
         if e:
             h = False
         elif s == '<opaque>' or isinstance(v, bool) or t is bool or (isinstance(v, (int, float)) and t in (int, float)) \
-                or isinstance(v, (set, frozenset)) or t is type(None) or v is None:
+                or isinstance(v, (set, frozenset)) or t is type(None) or v is None or isinstance(v, Card):
+            # (Card: an instance of a class the student's namespace does not define has no pedal type to speak of)
             ctx.abstain()
             return
         else:
